@@ -130,6 +130,11 @@ def _scaling(rng):
 
 def _unit_system(rng, keys=("m", "kg", "K", "mol", "rad"), p=0.7):
     scal = {}
+    if rng.random() < 0.2:
+        # exactly one unit scaled (all others SI): code that classifies a unit system as
+        # "SI" must look at every unit
+        k = keys[int(rng.integers(len(keys)))]
+        return {k: _scaling(rng)}
     for k in keys:
         if rng.random() < p:
             scal[k] = _scaling(rng)
@@ -238,6 +243,12 @@ def floor(tier):
         c = _material_case(rng, cls)
         c["subset"] = True
         out.append(c)
+        # only one unit scaled, each unit in turn
+        for k, u in enumerate(("rad", "mol", "K", "kg", "m")):
+            c = _material_case(rng, cls)
+            c["scal"] = {u: [2.0, 1e-3, 0.5, 1e3, 1.7][k]}
+            c["subset"] = False
+            out.append(c)
     return out
 
 
